@@ -50,3 +50,4 @@ func vDrawN(i int) uint32
 func vSecret(s string)
 func vSharedWriteText(i int) string
 func vReplayDraws(from int)
+func vDrawLimit(n int, msg string)
